@@ -40,6 +40,8 @@ impl Check for C03 {
                 let n = 1 + ctx.rng.below(4);
                 c03_case(ctx, &body, &signer, &aad, &payload, n);
                 built_then_edited_case(ctx, "Sig_structure", &body, &aad, &payload);
+                reprotect_case(ctx, "Sig_structure", &signer, &body, &aad, &payload);
+                decoded_edited_keeping_bytes_case(ctx, "Sig_structure", &body, &aad, &payload);
                 ctx.sample(|| J::obj(vec![("body_protected", J::Str(format!("{:?}", body.bytes.as_ref().map(|b| crate::rcbor::hex(b))))), ("aad_len", J::UInt(la as u64)), ("payload_len", J::UInt(lp as u64)), ("signers", J::UInt(n as u64)), ("outcome", J::s("all helper outputs equal the RFC 8152 Sig_structure"))]));
             }
             1 => {
@@ -65,6 +67,11 @@ impl Check for C03 {
                 let payload = bytes_of_len(ctx, lp);
                 let detached = ctx.rng.coin();
                 c03_decoded_case(ctx, &body, &signer, &aad, &payload, detached);
+                // the signer's header with the same content as the body's but different bytes
+                let same_content = MProt { bytes: Some(if body.header.is_empty() { if body.bytes.as_deref() == Some(&[]) { vec![0xa0] } else { vec![] } } else { crate::gen::prot_bytes(&mut ctx.rng, &body.header, 255) }), header: body.header.clone() };
+                c03_decoded_case(ctx, &body, &same_content, &aad, &payload, detached);
+                c03_case(ctx, &body, &same_content, &aad, &payload, 2);
+                decoded_edited_keeping_bytes_case(ctx, "Sig_structure", &body, &aad, &payload);
                 c03_decoded_countersig_case(ctx, &body, &signer, &aad, &payload);
             }
             _ => {
